@@ -381,3 +381,16 @@ Proof.
   intros V es Hk Hc. apply oob_keys_ok; [exact Hk|].
   intros o1 o2 H1 H2 He. apply enc_scalar_inj; auto.
 Qed.
+
+(* binc side encoder after the repair: plain string bytes are injective, so string keys held in
+   interface{} never tie *)
+Lemma binc_str_plain_inj : forall a b, binc_str_plain a = binc_str_plain b -> a = b.
+Proof. intros a b H. unfold binc_str_plain in H. congruence. Qed.
+
+Lemma binc_side_lemma : forall (V : Type) (es es' : list (key (list N) * V)),
+  Permutation es es' -> NoDup (map fst es) -> Forall (fun e => kind_of (list N) (fst e) = KKOob) es ->
+  enc_map_canon (list N) binc_str_plain V KKOob es = enc_map_canon (list N) binc_str_plain V KKOob es'.
+Proof.
+  intros V es es' Hp Hn Hk. apply perm_lemma; [exact Hp|exact Hn|].
+  apply oob_keys_ok; [exact Hk|]. intros o1 o2 _ _ H. apply binc_str_plain_inj. exact H.
+Qed.
